@@ -791,7 +791,88 @@ def plan_c19(run, prop, tier):
     return acc
 
 
+def plan_c07(run, prop, tier):
+    """C07: the memory-safety verdict comes from AddressSanitizer watching the harness (built with -Zsanitizer=address, debug
+    assertions on) replay histories: many short ones that each overstep one limit or precondition (id >= capacity incl.
+    usize::MAX, N+1st label, 17th member from either side, 15th group, absent / equal endpoints, calls on absent vertices,
+    exhausted allocator) and keep using the object afterwards, plus the ordinary long drivers (clones, save/load, slices,
+    merges).  The specification classifies every call (Trace.tla, Overrun): inside the limits -> must complete; one of the
+    three named overruns -> must panic; anything else outside the domain -> left open."""
+    acc = Acc()
+    asan = vlib.build_harness_asan()
+    s = vlib.seed()
+    if tier == "quick":
+        plan = [dict(profile="limits", n=2, cap=32, steps=5000, seed=s * 100 + 61, window=10),
+                dict(profile="limits", n=1, cap=30, steps=3000, seed=s * 100 + 62, window=8),
+                dict(profile="limits", n=16, cap=64, steps=3000, seed=s * 100 + 63, window=20),
+                dict(profile="limits", n=4, cap=30, steps=2500, seed=s * 100 + 64, window=30),
+                dict(profile="twin", n=2, cap=16, steps=1200, seed=s * 100 + 65, window=9),
+                dict(profile="merge", n=2, cap=32, steps=800, seed=s * 100 + 66, window=12),
+                dict(profile="slice", n=4, cap=16, steps=800, seed=s * 100 + 67, window=12)]
+    else:
+        plan = [dict(profile="limits", n=n, cap=cap, steps=20000, seed=s * 1000 + 600 + i, window=w)
+                for i, (n, cap, w) in enumerate([(1, 30, 8), (2, 32, 10), (2, 30, 30), (3, 40, 12), (4, 30, 30), (8, 64, 20), (16, 64, 20), (16, 256, 40), (2, 17, 17)])]
+        plan += [dict(profile=p_, n=n, cap=cap, steps=5000, seed=s * 1000 + 650 + i, window=w)
+                 for i, (p_, n, cap, w) in enumerate([("twin", 2, 16, 9), ("merge", 2, 32, 12), ("slice", 4, 16, 12), ("mixed", 16, 256, 40), ("groups14", 2, 64, 20), ("big16", 16, 40, 30)])]
+    by_n = {}
+    for p_ in plan:
+        by_n.setdefault(p_["n"], []).append(p_)
+    evals = 0
+    oversteps = 0
+    tid0 = 1
+    for n, ps in sorted(by_n.items()):
+        out = run.fresh("asan", ".ndjson")
+        prog = run.fresh("progress", ".json")
+        cmd = [asan, "drive", "--out", out, "--scratch", run.dir, "--plan", json.dumps(ps), "--first-tid", str(tid0), "--progress", prog]
+        tid0 += len(ps)
+        try:
+            p = vlib.sh(cmd, env={"ASAN_OPTIONS": "detect_leaks=0:exitcode=77:abort_on_error=0"}, timeout=3000, check=False)
+            rc, text = p.returncode, p.stdout
+        except ToolError:
+            rc, text = 124, "timeout"
+        if rc != 0:
+            if rc == 77 or "AddressSanitizer" in text or rc < 0 or rc in (134, 139):
+                pending = json.load(open(prog)) if os.path.exists(prog) else {}
+                tr = vlib.split_traces(out) if os.path.exists(out) else {}
+                calls = calls_of_trace(tr.get(pending.get("t"), []))
+                if pending.get("pending"):
+                    calls.append(pending["pending"])
+                report = [l for l in text.splitlines() if "AddressSanitizer" in l or l.strip().startswith("#")][:12]
+                cfgp = next((x for x in ps if True), ps[0])
+                acc.fails.append({"prop": "C07", "what": "memory error under AddressSanitizer (or abnormal process end, status %s): %s" % (rc, " | ".join(report)[:400]),
+                                  "source": f"E5 sanitizer replay N={n}", "replay": {"n": n, "cap": cfgp["cap"], "calls": calls, "asan": True}, "sig": "asan"})
+                acc.e3.append({"n": n, "crashed": True, "status": rc})
+                continue
+            raise ToolError(f"ASan harness failed (rc={rc}): " + text[-3000:])
+        v = vlib.judge(run, out, n, timeout=3000)
+        st = vlib.trace_stats(out)
+        evals += v["events"]
+        oversteps += len(v.get("voids", []))
+        acc.traces += st["traces"]
+        acc.e3.append({"n": n, "events_under_asan": v["events"], "histories": st["traces"], "histories_that_left_the_domain": len(v.get("voids", [])), "ops": st["ops"]})
+        traces = None
+        for (t, line, prop_, what) in v["fails"]:
+            if traces is None:
+                traces = vlib.split_traces(out)
+            evs = [(ln, e) for (ln, e) in traces.get(t, []) if ln <= line]
+            capv = next((e.get("cap") for (_, e) in traces.get(t, []) if e["op"] == "reset"), None)
+            acc.fails.append({"prop": prop_, "what": what, "source": f"E5 sanitizer replay, classification by Trace.tla, N={n}",
+                              "replay": {"n": n, "cap": capv, "calls": calls_of_trace(evs)}, "sig": ""})
+        if not acc.samples:
+            tr = vlib.split_traces(out)
+            k = sorted(tr)[min(2, len(tr) - 1)]
+            acc.samples.append({"history": calls_of_trace(tr[k])[-6:]})
+    if evals == 0 and not acc.fails:
+        raise ToolError("vacuity: nothing ran under the sanitizer")
+    acc.notes.update({"evaluations": evals, "distinct_nontrivial": oversteps,
+                      "rule": "evaluations = calls executed under AddressSanitizer and classified by the specification; distinct_nontrivial = histories in which a "
+                              "call overstepped a limit or a precondition (one per short history, all different prefixes)",
+                      "sanitizer": "AddressSanitizer (nightly rustc -Zsanitizer=address), detect_leaks=0 (emap never drops its elements), debug assertions on"})
+    return acc
+
+
 PLANS = {p: plan_gc for p in ("C01", "C02", "C03", "C04", "C06")}
+PLANS["C07"] = plan_c07
 PLANS["C19"] = plan_c19
 PLANS["C09"] = plan_c09
 PLANS["C14"] = plan_script
@@ -809,6 +890,7 @@ PLANS["C10"] = plan_twin
 
 LEVEL = {p: "model_checking" for p in PLANS}
 LEVEL["C09"] = "fault_enumeration"
+LEVEL["C07"] = "exploration"
 
 ASSUME_COMMON = [
     "TLC 2 and the CommunityModules Json/IOUtils are correct",
